@@ -90,13 +90,15 @@ def gen_case(rng, big=False):
     t = bg.gen_table(rng, big=big)
     ops = bg.gen_ops(rng, t)
     pr = bg.gen_partial_reordering(rng, t, ops) if rng.random() < 0.12 else None
+    # 15%: the table lives in an ATTACHed database (schema="aux"), half of them with a different table of that name in main
+    schema = "aux" if rng.random() < 0.15 else None
     return bc.new_case(t, ops, rng.choice(["always", "always", "auto"]), rng.random() < 0.3,
-                       tddl=rng.choice([None, None, True]), pr=pr)
+                       tddl=rng.choice([None, None, True]), pr=pr, schema=schema, main_twin=rng.random() < 0.5)
 
 
 def input_of(case):
     return {"table": case["table"], "ops": case["ops"], "recreate": case["recreate"], "copy_from": case["copy_from"],
-            "tddl": case.get("tddl"), "pr": case.get("pr")}
+            "tddl": case.get("tddl"), "pr": case.get("pr"), "schema": case.get("schema"), "main_twin": case.get("main_twin")}
 
 
 def kind_of(why):
@@ -122,9 +124,10 @@ def judge(ctx, pending):
                     m.get("stmts"), m.get("outcome")))
         else:
             ctx.trace_ok()
-        if applicable(r):
-            if s.get("holds") is not True:
-                why = s.get("why") or [json.dumps(s)]
+        twin = bc.main_untouched(r) if case.get("schema") else []
+        if applicable(r) or twin:
+            if s.get("holds", True) is not True or twin:
+                why = ((s.get("why") or [json.dumps(s)]) if s.get("holds", True) is not True else []) + twin
                 ctx.fail(input_of(case), "%s: %s" % (kind_of(why), "; ".join(why)[:600]), impl=bc.brief(r), tags=sorted({w.split(":")[0] for w in why}))
         if k < 2:
             ctx.sample({"input": input_of(case), "stmts": r["stmts"], "outcome": r["outcome"]})
@@ -146,6 +149,7 @@ def one(ctx, case, pending):
     for o in case["ops"]:
         ctx.hist("op", o["op"])
     ctx.hist("recreated", "createTmp" in r["stmts"])
+    ctx.hist("schema", "%s%s" % (case.get("schema") or "main", " + same name in main" if case.get("main_twin") else ""))
     ctx.hist("partial_indexes", sum(1 for i in case["table"]["indexes"] if i.get("where")))
     if applicable(r) and r["before"]["orig"]["rows"]:
         ctx.nontrivial(shape_key(case))
@@ -304,7 +308,7 @@ def replay(ctx, case):
         c, r, why = run_battery_item(ctx, inp["battery"])
         return {"impl": bc.brief(r), "sql_before": r["sql_before"], "sql_after": r["sql_after"], "spec": {"holds": not why, "why": why}}
     c = bc.new_case(inp["table"], inp["ops"], inp.get("recreate", "always"), inp.get("copy_from", False),
-                    tddl=inp.get("tddl"), pr=inp.get("pr"))
+                    tddl=inp.get("tddl"), pr=inp.get("pr"), schema=inp.get("schema"), main_twin=inp.get("main_twin"))
     r = bc.run_impl(c)
     m = ctx.drv.ask1(bc.model_op(c, r))
     out = {"impl": bc.brief(r), "model": {"stmts": m.get("stmts"), "outcome": m.get("outcome")}, "differences": bc.compare(c, r, m)}
